@@ -139,6 +139,11 @@ func checkC07(p *Prog, r *Report) {
 		r.unresolved(rule, "store to BuildTarget.RuleHash")
 	}
 	p.walkSortedRule(r, "fs/E5.walk-sorted")
+	// two clauses owned by other properties whose violation shows as order-dependence of hashes: a hash taken from the
+	// memo instead of the file depends on who hashed the path first; a package that writes into a shared config
+	// overlay changes what later packages hash
+	importRules(p, r, checkC02, "build/", "E5.restore-verified")
+	importRules(p, r, checkC17, "asp/", "E8.no-adoption-of-frozen-storage")
 	// state recycled between BUILD evaluations is fully reset
 	rule = "E5.recycled-state-reset"
 	nPut := 0
